@@ -67,13 +67,80 @@ def _callee_always_stores(prog, f, call, L):
     return False
 
 
+_FREEING = {}
+
+
+def freeing_param(prog, g):
+    """index of the parameter that the internal function g releases (the head of a list it walks and frees), or None"""
+    if g.qname in _FREEING:
+        return _FREEING[g.qname]
+    res = None
+    if not g.decl and len(g.params) >= 1:
+        g.build()
+        for c in g.calls():
+            if norm_callee(c.callee) not in FREE:
+                continue
+            seen, stack = set(), [c.ops[0]]
+            while stack and res is None:
+                v = strip_casts(stack.pop())
+                if id(v) in seen:
+                    continue
+                seen.add(id(v))
+                if not v.is_inst and not v.is_const and v in g.params:
+                    res = g.params.index(v)
+                elif v.is_inst and v.op == "phi":
+                    stack.extend(v.ops)
+    _FREEING[g.qname] = res
+    return res
+
+
+def _freed_arg(prog, f, c):
+    """the value released by call c: argument of free(), or of an internal helper that frees one of its parameters"""
+    nm = norm_callee(c.callee)
+    if nm in FREE:
+        return c.ops[0]
+    t = prog.fn(c.callee, f.unit) if c.callee else None
+    if t is None or isinstance(t, ExternFn) or t is f:
+        return None
+    k = freeing_param(prog, t)
+    if k is not None and k < len(c.ops):
+        return c.ops[k]
+    return None
+
+
+def _is_teardown(prog, f):
+    """a void function that does nothing but release things reachable from its parameter: the end of the object's life by
+    convention (the caller does not use the object again); fields it leaves behind are not 'dangling'"""
+    if f.ret != "void" or not f.params:
+        return False
+    n = 0
+    for c in f.calls():
+        nm = norm_callee(c.callee) or ""
+        if nm.startswith("llvm."):
+            continue
+        n += 1
+        if nm in FREE or nm in ("sqfs_drop", "closedir", "close", "fclose"):
+            continue
+        if _freed_arg(prog, f, c) is not None:
+            continue
+        t = prog.fn(c.callee, f.unit) if c.callee else None
+        if t is not None and not isinstance(t, ExternFn) and t is not f and _is_teardown(prog, t):
+            continue
+        return False
+    return n > 0 and not any(i.op == "store" and not (strip_casts(i.ops[1]).is_inst and strip_casts(i.ops[1]).op == "alloca")
+                             for i in f.insts())
+
+
 def candidates(prog, f):
     """[(free call, location pointer L, base object)]"""
     out = []
+    if _is_teardown(prog, f):
+        return out
     for c in f.calls():
-        if norm_callee(c.callee) not in FREE:
+        fa = _freed_arg(prog, f, c)
+        if fa is None:
             continue
-        v = strip_casts(c.ops[0])
+        v = strip_casts(fa)
         if not (v.is_inst and v.op == "load"):
             # the freed value itself was put into caller-visible memory earlier (linked into a list, stored in a field)
             for st in f.insts():
